@@ -665,21 +665,16 @@ func (f *Func) reachTarget(
 // with the given named arguments. This skips the whole graph creation
 // step by requiring args satisfy all required arguments.
 func (f *Func) callDirect(log hclog.Logger, argMap map[interface{}]reflect.Value) Result {
-	// If we have FuncOnce enabled and we've been called before, return
-	// the result we have cached.
 	if f.once {
 		// Hold the lock for the whole execution so that concurrent callers
 		// wait for (and then share) the first result.
 		f.onceLock.Lock()
 		defer f.onceLock.Unlock()
-
-		if f.onceResult != nil {
-			log.Trace("returning cached result, FuncOnce enabled")
-			return *f.onceResult
-		}
 	}
 
-	// Initialize the struct we'll be populating
+	// Initialize the struct we'll be populating. We do this even if we have
+	// a cached result: a FuncOnce function that has already run is still
+	// only usable when all of its arguments can be satisfied.
 	var buildErr error
 	structVal := f.input.newStructValue()
 	for _, val := range f.input.values {
@@ -701,6 +696,13 @@ func (f *Func) callDirect(log hclog.Logger, argMap map[interface{}]reflect.Value
 	// If there was an error setting up the struct, then report that.
 	if buildErr != nil {
 		return Result{buildErr: buildErr}
+	}
+
+	// If we have FuncOnce enabled and we've been called before, return
+	// the result we have cached.
+	if f.once && f.onceResult != nil {
+		log.Trace("returning cached result, FuncOnce enabled")
+		return *f.onceResult
 	}
 
 	// Call our function
